@@ -223,15 +223,23 @@ pub async fn sender_actor(
 /// polls and the call is re-issued (the documented-by-use cancel safety of recv/recv_any).
 macro_rules! with_recv_cancel {
     ($cancel:expr, $ctr:expr, $call:expr) => {{
+        // The cancellation budget grows with every re-issue of the same receive and the fourth
+        // attempt is awaited to completion: a receive that is dropped at *every* wake-up can
+        // livelock against another receiver doing the same (the queue slot each one is handed
+        // goes back and forth), which is a property of the adversary, not of the library.
+        let mut attempt = 0u32;
         loop {
             let budget = if $cancel.is_empty() { 0 } else { $cancel[$ctr % $cancel.len()] as u32 };
             $ctr += 1;
-            if budget == 0 {
+            if budget == 0 || attempt >= 3 {
                 break $call.await;
             }
-            match CancelAfter::new($call, Some(budget)).await {
+            match CancelAfter::new($call, Some(budget + attempt)).await {
                 Cancelled::Done(r) => break r,
-                Cancelled::Dropped => continue,
+                Cancelled::Dropped => {
+                    attempt += 1;
+                    continue;
+                }
             }
         }
     }};
